@@ -30,7 +30,9 @@ RULE = ('request paths built from segments {empty, ., .., %2e%2e, names, the '
         'wrapped app present/absent x gateway {WSGIApp, ASGIApp}; lifespan: '
         'callbacks {none, sync, async, raising} x wrapped app. distinct = '
         'distinct (gateway, mapping set, endpoint, wrapped, outcome class, '
-        'path shape) signatures')
+        'path shape) signatures; every combination serves its requests '
+        '(shuffled) from ONE configuration object, ASGI scopes carry a '
+        'seeded root_path')
 ASSUMPTIONS = ['/<endpoint> without the trailing slash is a don\'t-care (the '
                'two gateways deliberately differ)',
                'the tree contains no symlinks; containment is decided on '
